@@ -22,7 +22,7 @@ FACTORS = dict(
     cluster_every=[1, 2, 3, 5], n_max_clusters=[None, 1, 2, 3], split_threshold=[0.5, 1.0, 2.0],
     metric=["ess1", "ess2", "ess3.5", "vol0.5", "vol2"], steps=["default", "n1", "n3", "n2max2", "n1max50"],
     mode=["vec", "scalar", "blobs"], bc=["none", "periodic", "reflective", "mixed", "periodic2"], bctype=["list", "tuple"],
-    pool=["none", "int1", "int2", "object"], save_every=[None, 1, 3], outfs=["same", "other"], n_dim=[1, 2, 4], n_particles=["default", 16, 50],
+    pool=["none", "int1", "int2", "object"], save_every=[None, 1, 3], outfs=["same", "other"], n_dim=[1, 2, 4], n_particles=["default", 16, 50, 1],
 )
 
 
